@@ -56,7 +56,7 @@ OV_SETS = [
 OV_FILES = [('ovdir/file.txt', 333), ('ovdir/only-ov.txt', 90), ('ovdir/index.html', 140), ('ovdir/sub/a.css', 77), ('ovdir/sub/index.html', 88),
             ('ovdir/static/file.txt', 99), ('ovdir/static/index.html', 98), ('ovdir/big.txt.gz', 60),
             ('<PKG2>/alt/file.txt', 222), ('<PKG2>/alt/extra.txt', 91), ('<PKG2>/alt/sub/index.html', 92), ('<PKG2>/single.css', 93),
-            ('<PKG2>/static/passwd', 94)]
+            ('<PKG2>/static/passwd', 94), ('ovdir/\\x', 95), ('<PKG>/c:/w.txt', 96)]
 INDEX = 'index.html'
 SENTINEL = b'SENTINEL-OUTSIDE-ROOT:'
 
@@ -149,7 +149,7 @@ class Tree:
         os.makedirs(self.T + '/' + self.pkg2name, exist_ok=True)
         self._file(self.T + '/' + self.pkg2name + '/__init__.py', b'# c16 scratch package (override source)\n')
         for p, size in OV_FILES:
-            full = self.T + '/' + p.replace('<PKG2>', self.pkg2name)
+            full = self.T + '/' + p.replace('<PKG2>', self.pkg2name).replace('<PKG>', self.pkgname)
             os.makedirs(os.path.dirname(full), exist_ok=True)
             head = ('[C16:override:%s]' % p).encode('utf-8')
             self._file(full, head + bytes((i * 17 + len(head)) % 251 for i in range(max(0, size - len(head)))))
@@ -462,15 +462,12 @@ def designate(tree, case, segs, slash):
 
 
 def oracle(case, got, tree):
-    """None, or {'detail':…, 'expected':…[, 'finding':…]}; F-C16g is classified here (narrowly)"""
-    v = oracle0(case, got, tree)
-    if v and not v.get('safety') and got.get('out') == 'valueerror' and win_absolute_name(case, tree):
-        v['finding'] = 'F-C16g'
-    return v
+    """None, or {'detail':…, 'expected':…[, 'finding':…]}; no known-finding class is left (F-C16a/b/f/g/h are repaired)"""
+    return oracle0(case, got, tree)
 
 
 def win_absolute_name(case, tree):
-    """F-C16g's class: a package-relative view and a resource name (docroot + normalised request segments, also below an
+    """the class of the repaired F-C16h (an unguarded pkg_resources call raised; kept for the notes): a package-relative view and a resource name (docroot + normalised request segments, also below an
     override prefix) that is absolute for Windows but not for POSIX - pkg_resources raises ValueError for those"""
     import ntpath
     if case['kind'] == 'fs':
@@ -485,15 +482,21 @@ def win_absolute_name(case, tree):
             segs = normalise(text)
     except UnicodeError:
         return False
-    names = []
     base = '/'.join(KIND_DROOT[case['kind']] + segs)
-    names.append(base)
+    bad = lambda n: (n.startswith('\\') or ntpath.isabs(n)) and not n.startswith('/')
+    exts = [''] + [x for enc in ENC_SETS[case['encs']] for x in exts_of(enc)]
+    later = [base + x for x in exts[1:]] + [base + '/' + INDEX + x for x in exts]
+    if not bad(base):
+        # (A) the guarded name is acceptable, a later one (index of a directory called `X:`, a variant) is not
+        return any(bad(n) for n in later)
+    # (B) the guarded name is refused by the package but a filesystem override source HAS it, so the guard passes; a later
+    # name that the source lacks falls through to the package
     for a, b in ov_pairs(tree, case):
         path = a.split(':', 1)[1] if ':' in a else ''
-        if not b.startswith('/') and (path == '' or path.endswith('/')) and base.startswith(path):
-            names.append((b.split(':', 1)[1] if ':' in b else '') + base[len(path):])
-    bad = lambda n: (n.startswith('\\') or ntpath.isabs(n)) and not n.startswith('/')
-    return any(bad(n) or bad(n + '/' + INDEX) for n in names)
+        if b.startswith('/') and (path == '' or path.endswith('/')) and base.startswith(path):
+            if (b.rstrip('/') + '/' + base[len(path):].lstrip('/')) in tree.entries:
+                return True
+    return False
 
 
 def oracle0(case, got, tree):
@@ -541,6 +544,13 @@ def oracle0(case, got, tree):
                 return None if out == 'notfound' else {'detail': 'view selector segment', 'expected': {'out': 'notfound'}}
         if not all(proper(s) for s in segs):
             return None if out == 'notfound' else {'detail': 'segment with NUL designates nothing', 'expected': {'out': 'notfound'}}
+    if case['kind'] != 'fs' and out == 'notfound':
+        # pkg_resources cannot name a resource whose name is absolute for Windows (leading backslash, drive + root): for a
+        # package-relative view such a path designates nothing (fbf36b3 answers 404)
+        import ntpath
+        nm = '/'.join(KIND_DROOT[case['kind']] + list(segs))
+        if (nm.startswith('\\') or ntpath.isabs(nm)) and not nm.startswith('/'):
+            return None
     want = designate(tree, case, segs, slash)
     if want[0] == 'redirect':
         if out != 'redirect':
@@ -810,7 +820,7 @@ OV_NAMES = ['file.txt', 'only-ov.txt', 'extra.txt', 'index.html', 'sub/a.css', '
             'static/file.txt', 'static/', 'static', 'alt/file.txt', 'secret.txt', 'passwd', '__init__.py', 'static/passwd']
 OV_ATTACK = ['<T>/secret.txt', '/<T>/secret.txt', '<T>/ovdir2/secret.txt', '<T>/ovdirx', '<T>/<PKG2>/secret.txt', '<T>/ovdir/../secret.txt',
              '../secret.txt', '../../secret.txt', '../ovdir2/secret.txt', '2/secret.txt', 'x', '.gz', '/etc/passwd', '//etc/passwd',
-             '\\x', '\\', 'C:/x', 'C:/', 'C:', 'c:\\w.txt', 'C:\\x/y', '%2f<T>/secret.txt', '..%2fsecret.txt', '..\\secret.txt', '<T>/ovdir/file.txt', '<T>/<PKG2>/alt/file.txt', '/<T>/ovdir/only-ov.txt']
+             '\\x', '\\', 'C:/x', 'C:/', 'C:', 'c:\\w.txt', 'C:\\x/y', 'c:/', 'c:/w.txt', 'c:', '\\x', 'c:/', '%2f<T>/secret.txt', '..%2fsecret.txt', '..\\secret.txt', '<T>/ovdir/file.txt', '<T>/<PKG2>/alt/file.txt', '/<T>/ovdir/only-ov.txt']
 
 
 def kind_rel(kind, p):
@@ -1225,6 +1235,13 @@ def su_oracle2(case, got, tree, asset, hit):
     proper_sub = all(proper(x) for x in segs) and all(ord(c) < 0x110000 for c in sub2)
     if not proper_sub:
         return None
+    xspec = su_expand(tree, spec)
+    if not xspec.startswith('/') and ':' in xspec and back is not None and back['out'] == 'notfound':
+        import ntpath
+        d0 = xspec.split(':', 1)[1].rstrip('/')
+        nm0 = (d0 + '/' if d0 else '') + sub2
+        if (nm0.startswith('\\') or ntpath.isabs(nm0)) and not nm0.startswith('/'):
+            return None                             # pkg_resources cannot name it (see su_c16_back)
     exp = 'file' if tree.isfile(target) else 'redirect' if tree.isdir(target) else 'notfound'
     ok = back is not None and back['out'] == exp and (exp != 'file' or back.get('path') == target)
     if not ok:
@@ -1298,12 +1315,13 @@ def su_c16_back(case, got, tree):
     else:
         pfx, root, rspec = hit[0]
         segs = normalise(text[len(pfx):])
-        if back['out'] == 'valueerror' and not rspec.startswith('/') and ':' in rspec:
+        if not rspec.startswith('/') and ':' in rspec:
             import ntpath
             d = rspec.split(':', 1)[1].rstrip('/')
             nm = (d + '/' if d else '') + '/'.join(segs)
-            if any((x.startswith('\\') or ntpath.isabs(x)) and not x.startswith('/') for x in (nm, nm + '/' + INDEX)):
-                return {'detail': 'way-back request %r raised ValueError in pkg_resources' % text, 'expected': {'out': 'notfound'}, 'finding': 'F-C16g'}
+            bad = lambda x: (x.startswith('\\') or ntpath.isabs(x)) and not x.startswith('/')
+            if back['out'] == 'notfound' and bad(nm):
+                return None                         # pkg_resources cannot name it: designates nothing for a package view
         if not all(proper(x) for x in segs):
             exp, target = 'notfound', None
         else:
